@@ -529,6 +529,26 @@ fn part_api(c: &Child, only_chunk: Option<&str>) -> Tally {
         }
     }
     zones.push(TimeZone::new(vec![], vec![lt(-18000, false), lt(-14400, true)], vec![], Some(TransitionRule::Alternate(us))).unwrap());
+    // more local time types / transitions / leap records than any TZif index byte or real table has
+    for ntypes in [255usize, 256, 257, 300, 70000] {
+        let types: Vec<LocalTimeType> = (0..ntypes).map(|k| lt((k % 50000) as i32 - 20000, k % 2 == 1)).collect();
+        let trans: Vec<Transition> = (0..ntypes.min(1000)).map(|k| Transition::new(k as i64 * 1_000_000 - 500_000_000, ntypes - 1 - k * (ntypes / ntypes.min(1000)).max(1) % ntypes)).collect();
+        if let Ok(Ok(z)) = guard(|| TimeZone::new(trans.clone(), types.clone(), vec![], None)) {
+            zones.push(z);
+        }
+        let trans2 = vec![Transition::new(0, ntypes - 1), Transition::new(1_000_000, 0), Transition::new(2_000_000, ntypes / 2)];
+        if let Ok(Ok(z)) = guard(|| TimeZone::new(trans2.clone(), types.clone(), vec![LeapSecond::new(0, 1)], Some(TransitionRule::Fixed(types[ntypes / 2])))) {
+            zones.push(z);
+        }
+    }
+    {
+        let leaps: Vec<LeapSecond> = (0..500).map(|k| LeapSecond::new(k as i64 * 3_000_000, if k < 300 { -(k + 1) } else { k - 599 })).collect();
+        let types = vec![lt(0, false), lt(3600, true)];
+        let trans: Vec<Transition> = (0..3000).map(|k| Transition::new(k as i64 * 500_000 - 100, k % 2)).collect();
+        if let Ok(Ok(z)) = guard(|| TimeZone::new(trans.clone(), types.clone(), leaps.clone(), Some(TransitionRule::Fixed(types[1])))) {
+            zones.push(z);
+        }
+    }
     if let Ok(w) = wild {
         zones.push(TimeZone::new(vec![], vec![*w.std(), *w.dst()], vec![], Some(TransitionRule::Alternate(w))).unwrap());
     }
@@ -573,7 +593,7 @@ fn part_api(c: &Child, only_chunk: Option<&str>) -> Tally {
                     let _ = DateTime::from_total_nanoseconds(tn, z).map(|d| touch(&d));
                     let _ = UtcDateTime::from_total_nanoseconds(tn).map(|u| u.total_nanoseconds());
                 }
-                for &y in &i32s {
+                for &y in i32s.iter().chain([1970, 1971, 1984].iter()) {
                     for &mo in &[0u8, 1, 2, 12, 13, 255] {
                         for &d in &[0u8, 1, 28, 29, 31, 32, 255] {
                             for &(h, mi, s) in &[(0u8, 0u8, 0u8), (23, 59, 59), (23, 59, 60), (24, 60, 61), (255, 255, 255)] {
